@@ -42,3 +42,14 @@ def register(M):
       "                *es_del, e_keep = es\n",
       "harmless: the merged bond keeps the name of the last edge instead of the first",
       ["tests/test_compressed.py"], harmless=True)
+    M("M_C20_i", ["C20"], "cotengra/core.py",
+      '        if compress_late is None:\n            compress_late = self.get_default_compress_late()\n\n        hg = self.get_hypergraph(accel="auto")\n',
+      '        if compress_late is None:\n            compress_late = self.get_default_compress_late()\n\n'
+      '        memo = self.info[self.root].setdefault("compressed_stats", {})\n'
+      '        if (chi, order, compress_late) not in memo:\n'
+      '            memo[chi, order, compress_late] = self._compressed_contract_stats(chi, order, compress_late)\n'
+      '        return memo[chi, order, compress_late]\n\n'
+      '    def _compressed_contract_stats(self, chi, order, compress_late):\n'
+      '        hg = self.get_hypergraph(accel="auto")\n',
+      "compressed_contract_stats memoised in info[root]: stale after a partial in-place reconfiguration, shared with copies (only the histories see it)",
+      ["tests/test_compressed.py"])
